@@ -123,7 +123,11 @@ def check(run, F, tier):
     for p in ps:
         emitted = [ev for i, ev in conn.pushes(p, "RequestSendPacket")]
         if not emitted:
+            if cnt_writes(p):
+                problems.setdefault("the counter is changed on a path that re-emits nothing (a dropped / skipped stored packet is counted)", p)
             continue
+        if len(emitted) < len([1 for k, e in cnt_writes(p) if k == "inc"]):
+            problems.setdefault("more counter increments than re-emitted packets", p)
         n += 1
         cw = [k for k, e in cnt_writes(p)]
         mx = conn.possible(F, p, maxt, OPT)
